@@ -404,6 +404,13 @@ func (fc *FnCtx) instr(ins ssa.Instruction) {
 			}
 		}
 		fc.closures[x] = ci
+		// identity of the function value (immutable): which function, and for a bound method value its receiver
+		g.declareFun("|$fnOf|", "(Int) Int")
+		g.declareFun("|$fnRecv|", "(Int) Int")
+		fc.assume(fmt.Sprintf("(= (|$fnOf| %s) %d)", r, g.funcID(ci.fn.String())), "closure identity")
+		if len(ci.bindings) == 1 && strings.HasSuffix(ci.fn.Name(), "$bound") {
+			fc.assume(fmt.Sprintf("(= (|$fnRecv| %s) %s)", r, ci.bindings[0].t), "bound method receiver")
+		}
 	case *ssa.MakeInterface:
 		fc.makeInterface(x)
 	case *ssa.ChangeInterface:
